@@ -1,12 +1,30 @@
+import os
+import sys
+
+sys.path.insert(0, os.path.join(os.path.dirname(os.path.dirname(os.path.abspath(__file__))), "translate"))
+import c02_sites
+
 SPEC = {
+    "translators": [c02_sites.run],
     "trusted": [
-        "C02: coq/C02/Model.v is a hand transliteration of write_code / if_helper / goto_helper / switch_helper (duke/src/simple_class_writer.rs), Labels (labels.rs) and PoolWrite::put (pool.rs) at the layout level: non-branching instructions enter as their bytes",
-        "C02: coq/C02/Encode.v (general position-dependent encoder and byte-level decoder of branch/switch operands, JVMS 6.5) is the specification side of write_is_encode / targets_preserved",
-        "C02: the harness' abstraction of a duke tree to the layout level (harness/src/bin/c02/main.rs: branch_of, tables_of, probe write for the bytes of non-branching instructions) and the independent strict class-file parser harness/src/classfile/raw.rs used as oracle",
+        "C02: coq/C02/Model.v is a hand transliteration, branch by branch, of write_code / if_helper / goto_helper / switch_helper / align_to_4_byte_boundary and the patch loop (duke/src/simple_class_writer.rs), Labels (simple_class_writer/labels.rs), PoolWrite::put and put_bootstrap_method (simple_class_writer/pool.rs), write_attribute / write_usize_as_uN (lib.rs), at the layout level: an instruction without label operand enters as the bytes duke emits for it",
+        "C02: coq/C02/Encode.v is the specification side of write_is_encode / targets_preserved: the general position-dependent encoder (per instruction a choice narrow/wide, padding forced by position, offsets computed from the induced layout) and a decoder of branch/switch operands that looks only at bytes (JVMS 6.5 opcode classes and opposite conditions transcribed by hand)",
+        "C02: translate/c02_sites.py regenerates coq/C02/Gen.v from the source on every run (every write_attribute_fix_length call site with the writes that follow it, every if_helper / goto_helper call site with its opcode constants, the trampoline literals) and fails closed on any call shape it does not recognise",
+        "C02: the harness' abstraction of a duke tree to the layout level (harness/src/bin/c02/main.rs: branch_of, tables_of; the bytes of non-branching instructions are read from a probe write of the same tree in which label-carrying instructions are nops, so that ldc/ldc_w follow the real pool) and its contraction of inverted-condition trampolines before facts are compared",
+        "C02: fbh::classfile (independent strict parser raw::parse as structural validator, facts_from_raw / facts_from_duke as the pool-independent meaning of a class, assembler, generator, boundary constructions, vendored javac corpus) and the harness' own mini assembler (harness/src/bin/c02/mini.rs) for growth-driven boundary cases",
     ],
     "assumptions": [
-        "trees come from duke::read_class: labels are unique (each label on at most one instruction, last_label distinct) — checked by the harness on every tree (hypothesis_unique_labels_violated_by_reader must stay 0)",
-        "tableswitch: high - low + 1 fits i32 (otherwise the writer's own arithmetic overflows; the reader cannot produce such a tree)",
+        "trees come from duke::read_class (possibly renamed): every label sits on at most one instruction and the last label on none (unique_labels) — checked by the harness on every tree it reads (counter hypothesis_unique_labels_violated_by_reader stays 0)",
+        "tableswitch: high - low + 1 fits i32 (spans_ok); otherwise the writer's own i32 arithmetic overflows before it compares with the table length — the reader cannot produce such a tree",
+        "local-variable and type-annotation ranges have their start label not after their end label (ranges_ok); otherwise `end - start` on u16 overflows in Labels::try_get_range — the reader builds ranges as (start_pc, start_pc + length)",
+        "low/high/keys of switches are i32 values and instruction bytes are < 256 (body_ok) for targets_preserved",
+        "Rust's HashMap/HashSet behave as finite maps/sets (wide: list with membership, labels: association list where the most recent binding wins, pool map: association list)",
     ],
-    "stated_not_proved": [],
+    "stated_not_proved": [
+        "frames_written_full (coq/C02/Theory8.v): forall fs pos, written_frames fs pos = tree_frames fs pos -- FALSE today (known finding F14: `// TODO: write stack map table`); proved instead: C02_frames_written_partial (methods without frames) and C02_frames_written_refuted (the witness)",
+        "write_fails_cleanly characterises Err at the wide set the loop ends with (exists W with attempt W = AErr and cause W); a closed form of that final W in terms of the body alone is not stated (the layout is not monotone in W because switch padding can shrink)",
+        "expand W body as a body with explicit `inv`/`goto_w` instruction pairs and fresh labels is not defined; instead the wide form of a conditional is an 8-byte encoding of the same instruction and C02_targets_preserved shows that the byte decoder sees the inverted condition jumping to the next instruction followed by a goto_w to the target (index embedding = positions)",
+        "the class skeleton (magic, version, this/super/interfaces, member headers), the byte layouts of annotations, element values, type annotations and type paths, module, record components, inner classes, method parameters, and which pool-put each of them uses are not modelled in Coq: they are covered by the oracle (strict parser accepts the output; facts of the output = facts of the tree) on generated classes and the corpus only",
+        "modified UTF-8 encoding of pool strings is not modelled",
+    ],
 }
